@@ -29,7 +29,13 @@ theorem parseAuxFuel_ne_panic : ∀ (fuel : Nat) (rest : List Byte) (acc : List 
             · simp
             · split
               · simp
-              · apply ih; simp only [List.length_drop, List.length_cons]; omega
+              · split
+                · split
+                  · rename_i hd
+                    intro hc; cases hc
+                    rcases decodeHex_err _ _ hd with h' | h' <;> cases h'
+                  · apply ih; simp only [List.length_drop, List.length_cons]; omega
+                · apply ih; simp only [List.length_drop, List.length_cons]; omega
           · split
             · rename_i sub n0 n1 n2 n3 tl
               split
